@@ -304,7 +304,7 @@ func c08Search(c *hx.Ctx, tagName string, names []string, sals []int64, full boo
 		st.want = ref.RuleSet{}
 		for _, op := range st.path {
 			op := op
-			vsched.Run(opts, op.Choice, func() { c08Apply(st.rb, op) })
+			vsched.Run(opts, op.Choice, func() { gx.CallGuarded(func() error { return c08Apply(st.rb, op) }) })
 			if w, ok := c08RefApply(st.want, op); ok {
 				st.want = w
 			}
@@ -340,16 +340,21 @@ func c08Search(c *hx.Ctx, tagName string, names []string, sals []int64, full boo
 				var cur *builder.RuleBuilder
 				var err error
 				var before, beforeID string
+				var pan interface{}
 				hx.EnvRuns(opts, func() {
 					cur = gx.DeepClone(st.rb).(*builder.RuleBuilder)
 					before, beforeID = c08Key(cur), c08Ident(cur)
-					err = c08Apply(cur, op)
+					err, pan = gx.CallGuarded(func() error { return c08Apply(cur, op) })
 				}, func(choices []int32) {
 					c.Res.Execs++
 					c.Res.Steps++
 					o := op
 					o.Choice = append([]int32{}, choices...)
 					path := append(append([]c08Op{}, st.path...), o)
+					if pan != nil {
+						report(path, "operation-panicked:"+op.Kind, fmt.Sprintf("the operation panicked: %v", pan))
+						return
+					}
 					if !okOp {
 						if err == nil {
 							report(path, "bad-text-accepted:"+op.Kind, "a text with a syntax error / a duplicate rule name was accepted")
